@@ -230,6 +230,24 @@ func runClScenario(sc ClScenario) clResult {
 		if cancelled.Load() {
 			break
 		}
+		// the second push is accepted when the first delivery has been processed; the second delivery is being processed
+		// from now on. Wait until the subscriber present from the start has seen the cluster enter Reloading once per
+		// delivered map (2 per push so far) - on a loaded machine the Run goroutine may not have got that far yet, and the
+		// state would still read Running - and then until the state is no longer Reloading
+		seen := func() int {
+			watch.mu.Lock()
+			defer watch.mu.Unlock()
+			n := 0
+			for _, st := range watch.ss {
+				if st == "Reloading" {
+					n++
+				}
+			}
+			return n
+		}
+		for i := 0; i < 6000 && seen() < 2*(k+1) && !cancelled.Load(); i++ {
+			time.Sleep(500 * time.Microsecond)
+		}
 		for i := 0; i < 6000 && runner.GetState() == "Reloading"; i++ {
 			time.Sleep(500 * time.Microsecond)
 		}
